@@ -345,3 +345,64 @@ def c08_extent(code, mode, plen, count):
     o.append('  VP_REACH("c08 extent end");')
     o.append('}')
     return '\n'.join(o) + '\n', M
+
+
+
+def c07_sequence(code1, mode1, pl1, cnt1, code2, mode2, pl2, cnt2):
+    """buffer re-use: message 1 is encoded, then - in the same buffer, header switched with the library's
+    own setters - message 2; the result must be the reference encoding of message 2 on top of the bytes
+    message 1 left (the codec keeps no state between calls and depends only on the current bytes)"""
+    def sizes(code, mode, plen, count):
+        name, size, kind = W.VSS_TYPES[code]
+        dlen = size * count if kind != 'scalar' else size
+        pl = (2 + plen) if mode == W.VSS_ADDR_INTEROP else 4
+        vl = size if kind == 'scalar' else 2 + dlen
+        return dlen, pl, vl
+    d1, p1, v1 = sizes(code1, mode1, pl1, cnt1)
+    d2, p2, v2 = sizes(code2, mode2, pl2, cnt2)
+    M = H + max(p1 + v1, p2 + v2) + 4
+    o = [PRELUDE]
+    o.append('typedef struct { uint8_t mem[%d]; uint8_t pathA[%d], pathB[%d]; uint32_t sidA, sidB; uint8_t srcA[%d], srcB[%d]; } vp_in_t;'
+             % (M, max(pl1, 1), max(pl2, 1), max(d1, 8), max(d2, 8)))
+    o.append('static void enc(Avtp_Vss_t *pdu, int mode, unsigned plen, uint8_t *pbytes, uint32_t sid, int code, unsigned dlen, uint8_t *src);')
+    o.append('void harness(void) {')
+    o.append('  VP_INPUT(vp_in_t, in);')
+    o.append('  uint8_t *obj = vp_pdu_from(in.mem, %d); Avtp_Vss_t *pdu = (Avtp_Vss_t *)obj;' % M)
+    steps = [(code1, mode1, pl1, d1, 'A'), (code2, mode2, pl2, d2, 'B')]
+    for i, (code, mode, plen, dlen, tag) in enumerate(steps):
+        name, size, kind = W.VSS_TYPES[code]
+        member, etype, stype = CNAME[name]
+        o.append('  { /* message %d: %s, %s */' % (i + 1, name, 'interop' if mode == 0 else 'static'))
+        o.append('    Avtp_Vss_SetAddrMode(pdu, %d); Avtp_Vss_SetDatatype(pdu, 0x%02x);' % (mode, code))
+        o.append('    uint8_t ref[%d]; memcpy(ref, obj, %d);' % (M, M))
+        o.append('    VssPath_t path; memset(&path, 0, sizeof path);')
+        if mode == W.VSS_ADDR_INTEROP:
+            o.append('    path.vss_interop_path.path_length = %d; path.vss_interop_path.path = (char *)vp_obj_from(in.path%s, %d);' % (plen, tag, plen))
+            o.append('    ref[%d] = %d; ref[%d] = %d;' % (H, plen >> 8, H + 1, plen & 255))
+            if plen:
+                o.append('    memcpy(ref + %d, in.path%s, %d);' % (H + 2, tag, plen))
+            o.append('    unsigned pl = %du;' % (2 + plen))
+        else:
+            o.append('    path.vss_static_id_path = in.sid%s; ref_be(ref + %d, in.sid%s, 4); unsigned pl = 4u;' % (tag, H, tag))
+        o.append('    Avtp_Vss_SetVssPath(pdu, &path);')
+        o.append('    unsigned o_ = %du + pl;' % H)
+        if kind == 'scalar':
+            o.append('    VssData_t val; memset(&val, 0, sizeof val); memcpy(&val.%s, in.src%s, %d);' % (member, tag, size))
+            o.append('    Avtp_Vss_SetVssData(pdu, &val);')
+            o.append('    ref_be(ref + o_, host_elem(in.src%s, 0, %d), %d);' % (tag, size, size))
+        else:
+            o.append('    %s sv; sv.data_length = %d; sv.data = (void *)vp_obj_from(in.src%s, %d); %s *slot = &sv;' % (stype, dlen, tag, dlen, stype))
+            o.append('    Avtp_Vss_SetVssData(pdu, (VssData_t *)&slot);')
+            o.append('    ref[o_] = %d; ref[o_ + 1] = %d;' % (dlen >> 8, dlen & 255))
+            if kind == 'bytes':
+                if dlen:
+                    o.append('    memcpy(ref + o_ + 2, in.src%s, %d);' % (tag, dlen))
+            else:
+                n = dlen // size
+                if n:
+                    o.append('    for (unsigned e = 0; e < %d; e++) ref_be(ref + o_ + 2 + e * %du, host_elem(in.src%s, e, %d), %d);' % (n, size, tag, size, size))
+        o.append('    VP_ASSERT(vp_bytes_eq(obj, ref, %d), "C07 message %d encoded into a re-used buffer equals the reference encoding on top of the previous bytes (no state carried between calls)");' % (M, i + 1))
+        o.append('  }')
+    o.append('  VP_REACH("c07 sequence end");')
+    o.append('}')
+    return '\n'.join(o) + '\n', M
